@@ -441,6 +441,10 @@ def _cmp_vectorised(method, got, shape, tail, singles, tol, who, pc):
             'shape {} expected {} + {}'.format(gshape, tuple(shape), tail))
     got = np.asarray(got, dtype=float)
     for idx, ref in singles.items():
+        if not np.all(np.isfinite(ref)):
+            # degenerate single evaluation (0/0 when the source sits on the
+            # detector point): nothing to compare
+            continue
         ok, err = _close(got[idx], ref, tol)
         if not ok:
             raise Violation(
@@ -488,6 +492,22 @@ def check_detector(det, refdet, kind, dlo, dhi, dcomps, cb, strata,
         strata.append('curved-axes:halfturn')
         if not probe:
             raise _Excluded('C19-K5')
+        # probe the known region at points with a non-zero angle (at
+        # phi = 0 the mirrored surface coincides with the documented one)
+        for f in (0.8, 0.3):
+            q = [float(a + f * (b - a)) for a, b in zip(dlo, dhi)]
+            sq = _call('C19|raise-single', dname, det.surface, q)
+            dq = _call('C19|raise-single', dname, det.surface_deriv, q)
+            if not (_close(sq, refdet.surface(q), tol)[0] and
+                    _close(dq, refdet.deriv(q), tol)[0]):
+                raise Violation(
+                    'C19|surface-ref|{}|halfturn'.format(dname),
+                    'surface({}) = {} reference {}; surface_deriv = {} '
+                    'reference {}; axes {}'.format(
+                        q, np.asarray(sq).tolist(),
+                        refdet.surface(q).tolist(), np.asarray(dq).tolist(),
+                        refdet.deriv(q).tolist(),
+                        np.array(refdet.axes).tolist()))
     pre = 'C19|raise-single'
     for k, (idx, p) in enumerate(_entries(dcomps, shape)):
         arg = _single_arg(p)
